@@ -735,16 +735,23 @@ static void run_case(CaseCtx& c)
     for (auto& f : c18::parse_records(mo.all)) {
         if (f[0] == "A" && f.size() >= 2)
             last_phase = f[1];
-        else if (f[0] == "T" && f.size() >= 3)
-            o.top.raw(f[1], f[2]);
-        else if (f[0] == "I" && f.size() >= 3)
-            o.info.raw(f[1], f[2]);
+        else if ((f[0] == "T" || f[0] == "I") && f.size() >= 3) {
+            if (!c18::plain_key(f[1]) || !c18::json_ok(f[2])) {
+                garbled = true;
+                continue;
+            }
+            (f[0] == "T" ? o.top : o.info).raw(f[1], f[2]);
+        }
         else if (f[0] == "C" && f.size() >= 5) {
             if (!known_check(f[1])) { // a measuring child with a damaged heap may report anything
                 garbled = true;
                 continue;
             }
             const std::string& v = f[2];
+            if (!c18::json_ok(v) || f[4].size() > 400) {
+                garbled = true;
+                continue;
+            }
             o.checks[f[1]] = v == "NaN" ? NAN : (v == "Infinity" ? INFINITY : (v == "-Infinity" ? -INFINITY : strtod(v.c_str(), nullptr)));
             o.counts[f[1]] = atoll(f[3].c_str());
             if (!f[4].empty())
